@@ -11,8 +11,8 @@ import (
 type verifDeadQueue struct{ b *Batcher }
 
 func (o *verifDeadQueue) Start(AnyConfig, *OutputPluginParams) {}
-func (o *verifDeadQueue) Stop()                                 {}
-func (o *verifDeadQueue) Out(e *Event)                          { o.b.Add(e) }
+func (o *verifDeadQueue) Stop()                                {}
+func (o *verifDeadQueue) Out(e *Event)                         { o.b.Add(e) }
 
 type verifRetryCtl struct {
 	mainAcked, dqAcked map[uint64]bool
